@@ -94,6 +94,9 @@ structure S where
   consumed : List Nat := []
   inv : List (Nat × Nat) := []
   stack : List Frame := []
+  /-- a handler dropped the last user reference while an emitter holds one: destruction is due when the
+      outermost emission ends -/
+  pendingDestroy : Bool := false
   deriving Repr
 
 def S.invOf (s : S) (h : Nat) : Nat := (s.inv.lookup h).getD 0
@@ -147,8 +150,14 @@ def beginEmit (own : Owner) (s : S) (ev : Int) : S :=
 
 def asked (b : ABind) : Bool := b.ev == 0 || b.flags.unbind || b.flags.destroy
 
+def owedAtDestroy (s : S) : List Nat := (s.live.reverse.filter asked).map (·.slot)
+
 def beginDestroy (s : S) : S :=
-  { s with stack := .des ((s.live.reverse.filter asked).map (·.slot)) :: s.stack }
+  { s with stack := .des (owedAtDestroy s) :: s.stack }
+
+def Frame.isOcc : Frame → Bool
+  | .occ .. => true
+  | _ => false
 
 /-- Close the context frame on top of the stack; error text or the new state. -/
 def closeCtx (s : S) : Except String S :=
@@ -156,7 +165,13 @@ def closeCtx (s : S) : Except String S :=
   | .occ _ _ pending _ claimed :: rest =>
     match (if claimed then none else pending.find? s.isLive) with
     | some k => .error s!"fire_order: binding of slot {k} was live for the whole occurrence and never ran"
-    | none => .ok { s with stack := rest }
+    | none =>
+      -- the outermost emission ends: a destruction that was waiting for it happens now
+      if s.pendingDestroy && !(rest.any Frame.isOcc) then
+        match owedAtDestroy s with
+        | k :: _ => .error s!"destroy_notifies: slot {k} was owed a destroy notification"
+        | [] => .ok { s with stack := rest, live := [], pendingDestroy := false }
+      else .ok { s with stack := rest }
   | .unb (some k) true false :: _ => .error s!"unbind_notify_once: slot {k} asked for an unbind notification and got none"
   | .unb _ _ _ :: rest => .ok { s with stack := rest }
   | .des (k :: _) :: _ => .error s!"destroy_notifies: slot {k} was owed a destroy notification"
@@ -180,6 +195,19 @@ def stepTok (own : Owner) (beh : Behaviour) (s : S) (t : Tok) : Except String S 
         let b := beh h n
         let destroying := fl / 4 % 2 = 1
         let frame := Frame.inv slot h n fl (if destroying then [] else b.acts) 0 b.ret
+        -- a deferred destruction starts when the outermost emission has ended
+        let sOrErr : Except String S :=
+          match s.stack with
+          | .occ _ _ pending _ claimed :: rest =>
+            if destroying && s.pendingDestroy && !(rest.any Frame.isOcc) then
+              match (if claimed then none else pending.find? s.isLive) with
+              | some k => .error s!"fire_order: binding of slot {k} was live for the whole occurrence and never ran"
+              | none => .ok { s with stack := .des (owedAtDestroy s) :: rest, pendingDestroy := false }
+            else .ok s
+          | _ => .ok s
+        match sOrErr with
+        | .error e => .error e
+        | .ok s =>
         match s.stack with
         | .occ ev wf pending ran claimed :: rest =>
           if claimed then .error s!"fire_order: slot {slot} ran after an earlier handler had claimed the event"
@@ -240,7 +268,11 @@ def stepTok (own : Owner) (beh : Behaviour) (s : S) (t : Tok) : Except String S 
           | .unbind k => .ok (beginUnbindSlot s k)
           | .unbindSelf => .ok (beginUnbindSlot s slot)
           | .emit ev => .ok (beginEmit own s ev)
-          | .destroy => .ok { s with stack := .nop :: s.stack }
+          | .destroy =>
+            -- inside an emission of an owner whose emitters hold a reference the destruction waits for the end of
+            -- the outermost emission; otherwise it happens here and now
+            if own.holdsRef && s.stack.any Frame.isOcc then .ok { s with pendingDestroy := true, stack := .nop :: s.stack }
+            else .ok (beginDestroy s)
     | _ => .error "malformed log: action outside a handler"
   | .aend => closeCtx s
   | .ident id =>
@@ -285,7 +317,9 @@ structure DSt where
   spec : Spec.S := {}
   specBroken : Bool := false
 
-def ownerOf (k : Nat) : Owner := if k = 1 then Owner.pen else Owner.term
+def ownerOf (k : Nat) : Owner :=
+  if k = 1 then { Owner.pen with holdsRef := Gen.Bindings.penEmitterRef }
+  else { Owner.term with holdsRef := Gen.Bindings.termEmitterRef }
 
 def FUEL : Nat := 1000000
 
@@ -339,7 +373,7 @@ def step (d : DSt) (ts : List String) (impl : String) : DSt × String × String 
         -- model
         let (d1, mobs) := match execOp genCfg own beh FUEL op d.st with
           | .ok st' =>
-            ({ d with st := st', status := if op = Op.destroy then .dead else .run }, "log" ++ showSegment st'.log d.st.log)
+            ({ d with st := st', status := if op = Op.destroy || st'.dead then .dead else .run }, "log" ++ showSegment st'.log d.st.log)
           | .ub w => ({ d with status := .broken w }, "ub:" ++ w.replace " " "_")
           | .outOfFuel => ({ d with status := .broken "fuel" }, "out-of-fuel")
         -- specification, on the implementation's observation
